@@ -510,3 +510,64 @@ api_harness!(push_child_spans_direct, stub_ready, {
     }
     std::mem::forget(s);
 });
+
+// ---- C13: Future adapters (future.rs)
+use std::future::Future;
+use std::pin::Pin;
+use std::task::{Context, Poll, Waker};
+use crate::future::FutureExt;
+
+pub static mut SEEN_IN_POLL: Option<SpanContext> = None;
+pub static mut POLLED: usize = 0;
+
+struct Fut { ready: bool }
+impl Future for Fut {
+    type Output = u8;
+    fn poll(self: Pin<&mut Self>, _cx: &mut Context<'_>) -> Poll<u8> {
+        unsafe { SEEN_IN_POLL = SpanContext::current_local_parent(); POLLED += 1; }
+        if self.ready { Poll::Ready(7) } else { Poll::Pending }
+    }
+}
+
+api_harness!(future_in_span_final_poll, stub_ready, {
+    let i1 = any_item();
+    kani::assume(i1.is_sampled);
+    let cid: usize = kani::any();
+    let span = Span::new(vec![i1], "task", Some(cid));
+    let sid = id_of(&span);
+    let mut f = Fut { ready: true }.in_span(span);
+    let waker = Waker::noop();
+    let mut cx = Context::from_waker(&waker);
+    let r = Pin::new(&mut f).poll(&mut cx);
+    kani::assert(r == Poll::Ready(7), "adapter_is_transparent: the inner future's output is returned");
+    kani::assert(unsafe { POLLED } == 1, "adapter_is_transparent: the inner future is polled exactly once per poll");
+    let seen = unsafe { SEEN_IN_POLL };
+    kani::assert(seen.is_some() && seen.unwrap().span_id == sid && seen.unwrap().trace_id == i1.trace_id, "span_is_local_parent_during_poll: current_local_parent() inside the inner poll is the adapter's span");
+    kani::assert(SpanContext::current_local_parent().is_none(), "context_restored_after_poll: no local parent after the poll");
+    // on completion: the poll's local spans are submitted before the span's own finish and commit
+    kani::assert(nlog() == 3, "completion_finishes_span_exactly_once: local set, span, commit");
+    let (a, b, c) = (rec(0), rec(1), rec(2));
+    kani::assert(a.kind == 4 && a.set_kind == 2 && a.token_len == 1 && a.tok[0].parent_id == sid, "local_spans_of_final_poll_precede_span_finish: first the local spans recorded during the poll, under the span");
+    kani::assert(b.kind == 4 && b.set_kind == 1 && b.span_id == sid, "local_spans_of_final_poll_precede_span_finish: then the span itself");
+    kani::assert(c.kind == 3 && c.forced && c.collect_id == cid, "local_spans_of_final_poll_precede_span_finish: then the commit of the root");
+    drop(f);
+    kani::assert(nlog() == 3, "completion_finishes_span_exactly_once: dropping the completed adapter sends nothing more");
+});
+
+api_harness!(future_in_span_pending_poll, stub_ready, {
+    let i1 = any_item();
+    kani::assume(i1.is_sampled);
+    let span = Span::new(vec![i1], "task", None);
+    let sid = id_of(&span);
+    let mut f = Fut { ready: false }.in_span(span);
+    let waker = Waker::noop();
+    let mut cx = Context::from_waker(&waker);
+    let r = Pin::new(&mut f).poll(&mut cx);
+    kani::assert(r == Poll::Pending, "adapter_is_transparent: Pending is passed through");
+    let seen = unsafe { SEEN_IN_POLL };
+    kani::assert(seen.is_some() && seen.unwrap().span_id == sid, "span_is_local_parent_during_poll: the adapter's span");
+    kani::assert(SpanContext::current_local_parent().is_none(), "context_restored_after_poll: no local parent after the poll");
+    kani::assert(nlog() == 1 && rec(0).kind == 4 && rec(0).set_kind == 2, "pending_poll_keeps_span_open: only the poll's local spans are submitted");
+    drop(f);
+    kani::assert(nlog() == 2 && rec(1).kind == 4 && rec(1).set_kind == 1 && rec(1).span_id == sid, "drop_before_completion_finishes_span: dropping the adapter finishes the span once");
+});
